@@ -81,6 +81,7 @@ func main() {
 		}
 	case "step":
 		total += genStep(out, rng, cnt(3, 40), thorough)
+		total += genCmpPairs(out, rng, cnt(12, 200))
 		if thorough {
 			total += genStepExhaustive(out, rng, 3)
 			total += genStepExhaustive(out, rng, 4)
@@ -90,20 +91,30 @@ func main() {
 		total += genOverLimit(out, rng, cnt(150, 4000))
 		total += genCrowd(out, rng, cnt(3, 40))
 		total += genBigQueue(out, rng, cnt(8, 60))
+		total += genQueueRing(out, rng, "battle", cnt(60, 1500))
 	case "bigstep":
 		total += genBigStep(out, rng, cnt(15, 300))
 	case "rot":
 		total += genRot(out, rng, cnt(800, 20000))
 		total += genRotHuge(out, rng, cnt(60, 2000))
+		total += genRotAdversarial(out, rng, cnt(1500, 40000))
 	case "api":
 		if thorough {
 			total += genAPI(out, rng, 4, 20000)
 			total += genLifeCycle(out, rng, 20000)
 			total += genBigQueue(out, rng, 20)
+			total += genQueueRing(out, rng, "api", 1500)
+			total += genAlias(out, rng, 20000)
+			total += genLongWarrior(out, rng, 5000)
+			total += genManyResets(out, rng, 200)
 		} else {
 			total += genAPI(out, rng, 3, 2000)
 			total += genLifeCycle(out, rng, 600)
 			total += genBigQueue(out, rng, 4)
+			total += genQueueRing(out, rng, "api", 60)
+			total += genAlias(out, rng, 800)
+			total += genLongWarrior(out, rng, 300)
+			total += genManyResets(out, rng, 12)
 		}
 	case "config":
 		total += genConfig(out, rng, cnt(300, 5000))
